@@ -34,12 +34,18 @@ def retag(rep, start, tag):
     if not tag:
         return
     for o in rep.obls[start:]:
+        o.setdefault("base_key", o["key"])
         o["instance"] += tag
         o["key"] = "%s|%s" % (o["rule"], o["instance"])
 
 
-def per_config(rep, env, fn):
-    for c in env.configs():
+def per_config(rep, env, fn, light=False):
+    """term-level (heavy) rules: `default` configuration in the quick tier (features only add
+    Drop bodies and re-exports, the kernels' MIR is identical), every configuration in the
+    thorough tier.  Item-level (light) rules: every configuration of the tier."""
+    cfgs = env.configs() if (light or env.tier == "thorough") else ["default"]
+    env.used = sorted(set(getattr(env, "used", [])) | set(cfgs))
+    for c in cfgs:
         start = len(rep.obls)
         fn(env.fb(c))
         retag(rep, start, "" if c == "default" else "@" + c)
@@ -80,7 +86,6 @@ def c04(rep, env):
         SM.check_ctr_backend(rep, fb)
         SM.check_ctr_core(rep, fb)
         MI.check_plumbing(rep, fb, crates={"ctr"})
-        MI.check_flavor_siblings(rep, fb)
     per_config(rep, env, f)
 
 
@@ -113,7 +118,11 @@ def c08(rep, env):
     def f(fb):
         BC.check_definition(rep, fb)
         BC.check_chunking(rep, fb)
-        MI.check_stream_cores(rep, fb)
+        BM.check_definition(rep, fb, crates={"ofb", "cfb_mode", "cfb8"})
+        SM.check_ctr_backend(rep, fb)
+        SM.check_belt(rep, fb, parts=("def", "par"))
+        MI.check_stream_involution(rep, fb)
+        MI.check_aliases(rep, fb)
         BM.check_dependence(rep, fb, crates={"cfb_mode", "cfb8"})
     per_config(rep, env, f)
 
@@ -153,7 +162,8 @@ def c12(rep, env):
     def f(fb):
         BM.check_inplace(rep, fb)
         CM.check_inplace(rep, fb)
-        MI.check_stream_no_old_output(rep, fb)
+        MI.check_stream_involution(rep, fb)
+        CM.check_helpers(rep, fb)
     per_config(rep, env, f)
 
 
@@ -193,33 +203,39 @@ def c16(rep, env):
         IR.check_crate_attrs(rep, fb)
         IR.check_outgoing_calls(rep, fb)
         IR.check_clone_bodies(rep, fb)
-    per_config(rep, env, f)
+    per_config(rep, env, f, light=True)
 
 
 def c17(rep, env):
     def f(fb):
         IR.check_debug_opaque(rep, fb)
         IR.check_wrapper_debug(rep, fb)
-    per_config(rep, env, f)
+    per_config(rep, env, f, light=True)
     IR.check_zeroize(rep, env.fb("all-features"))
 
 
+PROOF_NOTE = ("Static decision over the generic MIR of /repo's current tree: kernels are summarised by abstract interpretation in a free term "
+              "domain (E, D, xor, byte slices, wrapping integers) with symbolic block size, width and lengths; each obligation is an equality of "
+              "normal forms or an entailment of linear facts, so one verdict covers every cipher, block size, width, key, IV and message.")
+
 REGISTRY = {
-    "C01": {"run": c01, "floors": {"inv.step": 12, "inv.cts.roundtrip": 72, "inv.stream": 4}},
-    "C02": {"run": c02, "floors": {"def.out": 12, "def.state": 16, "par.closed-form": 4}},
-    "C03": {"run": c03, "floors": {"def.out": 14, "def.state": 14, "par.closed-form": 4, "enc-only": 6, "buf": 8}},
-    "C04": {"run": c04, "floors": {"ctr.layout": 12, "ctr.ks.block": 12, "par.closed-form": 24}},
-    "C05": {"run": c05, "floors": {"cts.layout": 144, "cts.gate.exact": 24}},
-    "C06": {"run": c06, "floors": {"belt.init": 2, "belt.ks.block": 2, "par.closed-form": 4}},
-    "C07": {"run": c07, "floors": {"par.closed-form": 40, "par.no-override": 18, "helpers": 8}},
-    "C08": {"run": c08, "floors": {"buf": 8, "stream.core": 6}},
-    "C09": {"run": c09, "floors": {"ivstate.export-public": 20, "ivstate.resume": 20, "ctr.resume": 12, "buf.state": 4}},
-    "C10": {"run": c10, "floors": {"pos.get": 14, "pos.set": 14, "pos.counter-type": 14}},
-    "C11": {"run": c11, "floors": {"rem.exact": 14, "ctr.ks.advance": 12, "wrapper.check-dominates": 4}},
-    "C12": {"run": c12, "floors": {"alias.same.out": 160, "alias.no-old-output": 160}},
-    "C13": {"run": c13, "floors": {"cts.gate.exact": 24, "cts.gate.no-side-effect": 24, "b2b": 8, "ivsize": 30, "panic.site-covered": 40}},
-    "C14": {"run": c14, "floors": {"cts.layout": 144, "buf": 8, "ofb.one-backend": 4, "alias.wrapper": 16, "keyinit.blanket": 30}},
-    "C15": {"run": c15, "floors": {"dep.kind": 48, "ctr.ks.data-independent": 12}},
-    "C16": {"run": c16, "floors": {"own.fields-by-value": 60, "own.clone-fieldwise": 50, "own.no-std": 18, "own.no-unsafe": 18, "own.calls-allow-listed": 18}},
-    "C17": {"run": c17, "floors": {"leak.debug-opaque": 60, "leak.alias-debug-opaque": 16, "leak.zeroize-field": 24}},
+    "C01": {"run": c01, "level": "proof", "floors": {"inv.step.out": 6, "inv.cts.roundtrip": 36, "inv.buf.out": 2, "inv.stream": 5}},
+    "C02": {"run": c02, "level": "proof", "floors": {"def.out": 6, "def.state": 8, "par.closed-form": 2, "plumb.state-borrowed": 6}},
+    "C03": {"run": c03, "level": "proof", "floors": {"def.out": 7, "def.state": 7, "par.closed-form": 2, "enc-only.kernel": 8, "buf.def": 12}},
+    "C04": {"run": c04, "level": "proof", "floors": {"ctr.layout": 6, "ctr.ks.block": 6, "par.closed-form": 12, "ctr.resume": 6}},
+    "C05": {"run": c05, "level": "proof", "floors": {"cts.layout": 72, "cts.gate.exact": 12, "helpers.one-block": 4}},
+    "C06": {"run": c06, "level": "proof", "floors": {"belt.init": 1, "belt.ks.block": 1, "par.closed-form": 2}},
+    "C07": {"run": c07, "level": "proof", "floors": {"par.no-override": 11, "par.closed-form": 18, "helpers.par-group": 7}},
+    "C08": {"run": c08, "level": "proof", "floors": {"buf.def": 12, "buf.chunk": 6, "def.out": 7, "ctr.ks.block": 6, "belt.ks.block": 1, "alias.wrapper": 8}},
+    "C09": {"run": c09, "level": "proof", "floors": {"ivstate.export-public": 12, "ivstate.resume": 14, "ctr.resume": 6, "buf.state": 4}},
+    "C10": {"run": c10, "level": "proof", "floors": {"pos.get": 7, "pos.set": 7, "pos.counter-type": 7, "pos.core": 12}},
+    "C11": {"run": c11, "level": "other", "floors": {"rem.exact": 7, "ctr.ks.advance": 6, "belt.ks.advance": 1, "wrapper.check-dominates": 3, "rem.ofb-unbounded": 1}},
+    "C12": {"run": c12, "level": "proof", "floors": {"alias.same.out": 86, "alias.no-old-output": 87}},
+    "C13": {"run": c13, "level": "proof", "floors": {"cts.gate.exact": 12, "cts.gate.no-side-effect": 12, "b2b": 3, "ivsize": 21, "panic.site-covered": 40}},
+    "C14": {"run": c14, "level": "proof", "floors": {"cts.layout": 72, "buf.def": 12, "buf.init": 2, "ofb.one-backend": 1, "ofb.same-function": 2, "alias.wrapper": 8, "keyinit.blanket": 21}},
+    "C15": {"run": c15, "level": "proof", "floors": {"dep.kind": 24, "ctr.ks.data-independent": 6}},
+    "C16": {"run": c16, "level": "proof", "floors": {"own.fields-by-value": 62, "own.clone-fieldwise": 58, "own.no-std": 18, "own.no-unsafe": 18, "own.calls-allow-listed": 18}},
+    "C17": {"run": c17, "level": "other", "floors": {"leak.debug-opaque": 66, "leak.alias-debug-opaque": 16, "leak.zeroize-field": 24}},
 }
+for _k, _v in REGISTRY.items():
+    _v.setdefault("explanation", PROOF_NOTE)
